@@ -5,7 +5,8 @@
                                     optional / required, PrematureEOF, TokenRequired)
      pybtex/bibtex/interpreter.py:35-175 (Integer / String / QuotedVar / Identifier /
                                     FunctionLiteral, compared structurally: class + value)
-   Mirrors /repo HEAD, quirks included.  No proofs here.
+   Mirrors /repo HEAD (with fix 135237f: a missing argument group is a syntax error), quirks
+   included.  No proofs here.
 
    The scanner object (text, pos, lineno) is modelled by the pair (remaining text, lineno):
    pos only ever moves forward and nothing looks behind it.
@@ -300,22 +301,19 @@ Fixpoint parse_group (fuel : nat) (s : str) (ln : Z) : res (list tok * state) :=
     end
   end.
 
-(* bst.py:145-149 the loop over range(arity): optional '{' (PrematureEOF at the end of the text),
-   stops SILENTLY at the first missing brace *)
+(* bst.py:145-147 the loop over range(arity): each of the arity groups must open with a brace
+   (required: TokenRequired at a token that is not an opening brace, PrematureEOF at the end of
+   the text) -- /repo after fix 135237f *)
 Fixpoint parse_args (fuel : nat) (n : nat) (s : str) (ln : Z) : res (list (list tok) * state) :=
   match n with
   | O => Ok ([], (s, ln))
   | S k =>
-    do b <- optional [P_LBRACE] s ln;
-    let '(o, (s1, ln1)) := b in
-    match o with
-    | None => Ok ([], (s1, ln1))
-    | Some _ =>
-      do g <- parse_group fuel s1 ln1;
-      let '(grp, (s2, ln2)) := g in
-      do r <- parse_args fuel k s2 ln2;
-      Ok (grp :: fst r, snd r)
-    end
+    do b <- required [P_LBRACE] false s ln;
+    let '(_, (s1, ln1)) := b in
+    do g <- parse_group fuel s1 ln1;
+    let '(grp, (s2, ln2)) := g in
+    do r <- parse_args fuel k s2 ln2;
+    Ok (grp :: fst r, snd r)
   end.
 
 (* bst.py:138-149 parse_command *)
